@@ -855,6 +855,34 @@ pub fn replay(v: &Value) -> Result<(), String> {
                 };
                 check_pair(&a, &b, &sa, &sb, bop, &f, k).map(|_| ()).map_err(|e| e.0)
             }
+            "interval" => {
+                let n = v["n"].as_u64().unwrap_or(0) as u32;
+                let order: Vec<u32> = match v["order"].as_str().unwrap_or("") {
+                    "descending" => (0..n).rev().collect(),
+                    "inside-out" => { let mut o = Vec::new(); let (mut lo, mut hi) = (n as i64 / 2 - 1, n as i64 / 2); while lo >= 0 || hi < n as i64 { if hi < n as i64 { o.push(hi as u32); hi += 1; } if lo >= 0 { o.push(lo as u32); lo -= 1; } } o }
+                    "outside-in" => { let mut o = Vec::new(); let (mut lo, mut hi) = (0i64, n as i64 - 1); while lo <= hi { o.push(lo as u32); if hi != lo { o.push(hi as u32); } lo += 1; hi -= 1; } o }
+                    _ => (0..n).collect(),
+                };
+                let bkeys: Vec<u32> = v["operand_keys"].as_array().map(|a| a.iter().map(|x| x.as_u64().unwrap() as u32).collect()).unwrap_or_default();
+                let build = |keys: &[u32], base: u64| -> (Map, Ref) { let mut m = Map::new(); let mut r = Ref::new(); for &k in keys { m.insert(k, base + k as u64); r.insert(k, base + k as u64); } (m, r) };
+                let a = build(&order, 1000);
+                let b = build(&bkeys, 200_000);
+                let (sa, sb) = (a.0.verif_shape(), b.0.verif_shape());
+                let bop = match v["op"].as_str().unwrap_or("") {
+                    "Union" => BinOp::Union,
+                    s if s.starts_with("Diff(") => BinOp::Diff(s.trim_start_matches("Diff(").trim_end_matches(')').parse().map_err(|_| "variant")?),
+                    _ => {
+                        // removal sequence
+                        let (mut m, mut r) = build(&order, 1000);
+                        for k in &bkeys { m.remove(k); r.remove(k); check_map(&m, &r, n)?; }
+                        let (mut m, mut r) = build(&order, 1000);
+                        for k in bkeys.iter().rev() { m.remove(k); r.remove(k); check_map(&m, &r, n)?; }
+                        return Ok(());
+                    }
+                };
+                if v["direction"].as_str() == Some("operand op map") { check_pair(&b, &a, &sb, &sa, bop, &[], n).map(|_| ()).map_err(|e| e.0) }
+                else { check_pair(&a, &b, &sa, &sb, bop, &[], n).map(|_| ()).map_err(|e| e.0) }
+            }
             other => Err(format!("unknown replay kind {other}")),
         }
     };
@@ -864,4 +892,85 @@ pub fn replay(v: &Value) -> Result<(), String> {
         return Err(format!("NONDETERMINISTIC replay: {r1:?} vs {r2:?}"));
     }
     r1
+}
+
+
+/// Larger maps than the shape search can reach: for every n <= max_n, maps built in a few canonical
+/// insertion orders over keys 0..n against every "interval-like" operand (all intervals [i, j), their
+/// complements, all strides), for union and the three difference callbacks, plus removal of every
+/// interval by single removes. An input enumeration (no state de-duplication).
+pub fn run_intervals(max_n: u32) -> Value {
+    let t0 = std::time::Instant::now();
+    let ns: Vec<u32> = (1..=max_n).collect();
+    let results: Vec<(u64, u64, Vec<Violation>)> = ns.par_iter().map(|&n| {
+        let mut viol: Vec<Violation> = Vec::new();
+        let mut cases = 0u64;
+        let mut nontrivial = 0u64;
+        let orders: Vec<(&str, Vec<u32>)> = vec![
+            ("ascending", (0..n).collect()),
+            ("descending", (0..n).rev().collect()),
+            ("inside-out", { let mut v = Vec::new(); let (mut lo, mut hi) = (n as i64 / 2 - 1, n as i64 / 2); while lo >= 0 || hi < n as i64 { if hi < n as i64 { v.push(hi as u32); hi += 1; } if lo >= 0 { v.push(lo as u32); lo -= 1; } } v }),
+            ("outside-in", { let mut v = Vec::new(); let (mut lo, mut hi) = (0i64, n as i64 - 1); while lo <= hi { v.push(lo as u32); if hi != lo { v.push(hi as u32); } lo += 1; hi -= 1; } v }),
+        ];
+        let build = |keys: &[u32], base: u64| -> (Map, Ref) {
+            let mut m = Map::new(); let mut r = Ref::new();
+            for &k in keys { m.insert(k, base + k as u64); r.insert(k, base + k as u64); }
+            (m, r)
+        };
+        // operand key sets
+        let mut operands: Vec<(String, Vec<u32>)> = Vec::new();
+        for i in 0..n { for j in i + 1..=n {
+            operands.push((format!("[{i},{j})"), (i..j).collect()));
+            if j - i < n { operands.push((format!("complement of [{i},{j})"), (0..n).filter(|k| *k < i || *k >= j).collect())); }
+        } }
+        for stride in 2..=4u32 { for off in 0..stride { operands.push((format!("stride {stride} offset {off}"), (0..n).filter(|k| k % stride == off).collect())); } }
+        for (oname, order) in &orders {
+            let a = build(order, 1000);
+            let a_shape = match check_map(&a.0, &a.1, n) { Ok(s) => s, Err(e) => { viol.push(Violation { sig: "intervals:build".into(), summary: format!("map built by {oname} inserts of 0..{n}: {e}"), replay: json!({"kind":"interval","n":n,"order":oname,"operand":"","op":"build"}) }); continue; } };
+            for (bname, bkeys) in &operands {
+                let b = build(bkeys, 200_000);
+                let b_shape = b.0.verif_shape();
+                for bop in [BinOp::Union, BinOp::Diff(0), BinOp::Diff(1), BinOp::Diff(2)] {
+                    cases += 1;
+                    if bkeys.len() >= 2 { nontrivial += 1; }
+                    for (x, y, xs, ys, dir) in [(&a, &b, &a_shape, &b_shape, "map op operand"), (&b, &a, &b_shape, &a_shape, "operand op map")] {
+                        if let Err((msg, _)) = check_pair(x, y, xs, ys, bop, &[], n) {
+                            if viol.len() < 10 {
+                                viol.push(Violation { sig: format!("intervals:{:?}:{}", bop, crate::wbmap::sig_words(&msg)), summary: format!("n={n}, map built by {oname} inserts, operand {bname}, {dir}, {:?}: {msg}", bop),
+                                    replay: json!({"kind":"interval","n":n,"order":oname,"operand":bname,"operand_keys":bkeys,"op":format!("{:?}",bop),"direction":dir,"message":msg}) });
+                            }
+                        }
+                    }
+                }
+                // removal of the operand's keys one by one (ascending and descending)
+                for rev in [false, true] {
+                    cases += 1;
+                    let (mut m, mut r) = build(order, 1000);
+                    let mut ks = bkeys.clone(); if rev { ks.reverse(); }
+                    for k in ks {
+                        let x = m.remove(&k); let y = r.remove(&k);
+                        if x != y { if viol.len() < 10 { viol.push(Violation { sig: "intervals:remove-return".into(), summary: format!("n={n} {oname}: remove({k}) returned {x:?}, reference {y:?}"), replay: json!({"kind":"interval","n":n,"order":oname,"operand":bname,"op":"remove"}) }); } break; }
+                        if let Err(e) = check_map(&m, &r, n) { if viol.len() < 10 { viol.push(Violation { sig: format!("intervals:remove:{}", sig_words(&e)), summary: format!("n={n}, map built by {oname} inserts, removing the keys of {bname} ({}): after remove({k}): {e}", if rev {"descending"} else {"ascending"}), replay: json!({"kind":"interval","n":n,"order":oname,"operand":bname,"operand_keys":bkeys,"op":"remove","message":e}) }); } break; }
+                    }
+                }
+            }
+        }
+        (cases, nontrivial, viol)
+    }).collect();
+    let mut violations = Vec::new();
+    let mut sigs = std::collections::HashSet::new();
+    let (mut cases, mut nt) = (0u64, 0u64);
+    for (c, n, v) in results { cases += c; nt += n; for x in v { if sigs.insert(x.sig.clone()) { violations.push(x); } } }
+    json!({
+        "states": 0, "transitions": cases, "traces_validated_against_impl": cases, "evaluations": cases, "distinct_nontrivial": nt,
+        "rule": "interval family: maps over 0..n built in four insertion orders x operands (all intervals, complements, strides) x union / three difference callbacks in both directions, and key-by-key removal",
+        "max_n": max_n, "exhaustive": true, "wall_s": t0.elapsed().as_secs_f64(),
+        "samples": [json!({"n": max_n, "order": "ascending", "operand": "[1,3)", "op": "Diff(1)"})],
+        "violations": violations.iter().map(|v| json!({"sig": v.sig, "summary": v.summary, "replay": v.replay})).collect::<Vec<_>>(),
+    })
+}
+
+pub fn sig_words(msg: &str) -> String {
+    let cleaned: String = msg.chars().map(|c| if c.is_ascii_digit() { '#' } else { c }).collect();
+    cleaned.split(|c| c == ':' || c == '[' || c == '(').next().unwrap_or("").trim().chars().take(60).collect()
 }
